@@ -51,7 +51,10 @@ let obs_of = function
   | _ -> None
 
 let req_of = function
-  | L [A "req"; A dh; A ct; b] ->
+  | L (A "req" :: A dh :: A ct :: b :: dl) ->
+    (* the way the body is delivered does not enter the model: an empty body is an
+       allprop request however it arrives *)
+    bump ("delivery_" ^ (match dl with [A d] -> d | _ -> "exact"));
     let dh = (match dh with "absent" -> DHAbsent | "0" -> DH0 | "1" -> DH1 | "inf" -> DHInf | "bad" -> DHBad
                             | _ -> raise (Parse_error "depth")) in
     let ct = (match ct with "none" -> CTNone | "xml" | "xml2" -> CTXml | "other" -> CTOther
@@ -65,6 +68,10 @@ let req_of = function
 let rec tree_of = function
   | L [A "file"; m] ->
     (* the texts are not observed by C11 (values are compared by kind): placeholders *)
+    File { f_clen = ['0']; f_etag = ['e']; f_ctype = (if bool_ m then ['t'] else []) }
+  | L [A "special"; A _; m] ->
+    (* a symbolic link or FIFO: what PROPFIND reports of it is what it reports of a file *)
+    bump "special_entry";
     File { f_clen = ['0']; f_etag = ['e']; f_ctype = (if bool_ m then ['t'] else []) }
   | L (A "dir" :: cs) ->
     Dir (List.map (function L [n; t] -> (str n, tree_of t) | _ -> raise (Parse_error "child")) cs)
